@@ -92,6 +92,8 @@ class C01(Monitor):
         on this very stream (or on the connection) of either endpoint."""
         y = s.ep
         x = w.peer(y)
+        if s.exc and not s.exc.get('proto'):
+            return default          # no open finding makes receive_data raise anything but a ProtocolError
         ref = self.fsm_refused[y] | self.fsm_refused[x]
         sids = set(u.sid for u in s.units)
         if 'conn' in ref or (ref & sids):
